@@ -127,6 +127,7 @@ class Universe:
         self.local_types = {}   # 'Class.method' -> {local name: type tag}
         self.method_hooks = {}  # 'Class.method' -> fn(it, self, args, kw, st, fr)
         self.extra_subclasses = {}   # external class name -> [subclass names]
+        self.prop_hooks = {}    # 'PseudoClass.attr' -> property get/set hook
         self._iconsts = {}
 
     def field_tag(self, name):
@@ -865,6 +866,9 @@ class Interp(BuiltinsMixin, StmtMixin, DictMixin):
                     attr, obj.e, uni.field_tag(attr)))
             if attr == "__class__":
                 return VFunc("classof", recv=obj)
+            ph = uni.prop_hooks.get(f"{obj.cls}.{attr}")
+            if ph is not None:
+                return ph(self, obj, [], {}, st, fr)
             hk = uni.method_hooks.get(f"{obj.cls}.{attr}")
             if hk is not None:
                 return VFunc("hook", fn=lambda it, a, k, st2, fr2, _o=obj:
@@ -1124,6 +1128,9 @@ class Interp(BuiltinsMixin, StmtMixin, DictMixin):
                     arg, "copy", [], {}, st, fr)
             if isinstance(arg, VRef) and arg.elem is not None:
                 return self.contop(arg, "copy", [], {}, st, fr)
+            hook = getattr(self.uni, "copy_object_hook", None)
+            if hook is not None and isinstance(arg, VRef):
+                return hook(self, [arg], {}, st, fr)
             raise Unsupported(f"copy.copy of {arg}")
         if fr.spec and isinstance(node.func, ast.Name) and \
                 node.func.id in ("entry", "head"):
